@@ -365,7 +365,8 @@ CHECKS["C14"] = {
     "design_ref": "DESIGN.md 2/C14",
     "parts": [{"name": "faults", "exe": "c14_lifecycle", "sources": ["c14_lifecycle.cpp"], "shards": 16}],
     "rule": "programs: flat chain of 4; nested_ with two inner nodes; map_ over a dictionary with key churn (add 2, add 1, erase 1, update) feeding a "
-            "reduce; switch_ with a branch change; reduce with an instrumented combiner node. Faults: phase in {start, evaluate, stop} x occurrence "
+            "reduce; switch_ with a branch change; reduce with an instrumented combiner node; try_except_ around a value sub-graph and around a SINK sub-graph "
+            "(evaluate faults inside the try_except_ child are captured, C15's subject, and are not injected). Faults: phase in {start, evaluate, stop} x occurrence "
             "1..3 (1..5 thorough) of every instrumented node id, all singles and all ordered pairs (evaluate then stop, start then stop-in-rollback, two "
             "stops, ...), cleanup_on_error in {on, off}. Oracle from the ledger: per graph starts in increasing and stops in decreasing index order; "
             "every instance whose start completed has exactly one stop hook call, before run() returns (cleanup on, or no error) or before the "
